@@ -96,9 +96,26 @@ func c15Generate(r *rand.Rand) (*c15rec, error) {
 				continue
 			}
 			var sib gts.Location = gts.Range(lo, hi)
-			if r.Intn(2) == 0 {
+			switch r.Intn(3) {
+			case 0:
 				mid := lo + 1 + r.Intn(hi-lo-2)
 				sib = gts.Join(gts.Range(lo, mid), gts.Range(mid+1, hi))
+			case 1:
+				// the same outer bounds and the same spliced length, another
+				// interior (alternative transcripts): a one-residue gap moved.
+				if hi-lo >= 5 {
+					g := lo + 1 + r.Intn(hi-lo-3)
+					f.Loc = gts.Join(gts.Range(lo, g), gts.Range(g+1, hi))
+					sib = gts.Join(gts.Range(lo, g+1), gts.Range(g+2, hi))
+					if pp[0].Rev {
+						f.Loc = f.Loc.Complement()
+					}
+					for ti := range tab {
+						if gen.Label(tab[ti]) == gen.Label(f) {
+							tab[ti].Loc = f.Loc
+						}
+					}
+				}
 			}
 			if pp[0].Rev {
 				sib = sib.Complement()
@@ -265,6 +282,7 @@ func (x *c15run) one(rec *c15rec, cmd string, flags []string, locstr string, r *
 		name += " " + f
 	}
 	var guestB []byte
+	guestFeat := false
 	var guests [][]byte
 	files := map[string][]byte{}
 	stdin := rec.text
@@ -276,7 +294,15 @@ func (x *c15run) one(rec *c15rec, cmd string, flags []string, locstr string, r *
 			args = append(args, locstr, "@"+string(guestB))
 		} else {
 			gf := ">g\n" + string(guestB) + "\n"
-			if r.Intn(2) == 0 {
+			if r.Intn(3) == 0 {
+				// an annotated guest: its feature travels with every copy.
+				gg := seqio.GenBank{Fields: seqio.GenBankFields{LocusName: "GUEST", Molecule: gts.DNA, Topology: gts.Linear, Division: "SYN",
+					Date: seqio.Date{Year: 2021, Month: 3, Day: 4}, Definition: "guest", Accession: "GUEST1", Version: "GUEST1.1"},
+					Table: gts.FeatureSlice{{Key: "misc_binding", Loc: gts.Range(0, len(guestB)), Props: gts.Props{{"label", "gf"}}}}, Origin: seqio.NewOrigin(append([]byte(nil), guestB...))}
+				gf = gg.String()
+				guestFeat = true
+				c.Bucket("insert:annotated-guest")
+			} else if r.Intn(2) == 0 {
 				// a guest file of two records: the host once with each.
 				g2 := gen.UniqueBytes(62, 2+r.Intn(3))
 				guests = append(guests, g2)
@@ -316,6 +342,11 @@ func (x *c15run) one(rec *c15rec, cmd string, flags []string, locstr string, r *
 	args = append(args, flags...)
 	if fasta {
 		args = append(args, "-F", "fasta")
+	} else if r.Intn(4) == 0 {
+		// the format the input has anyway, spelled out: no option changes what
+		// another option does.
+		args = append(args, []string{"-F", "--format"}[r.Intn(2)], "genbank")
+		c.Bucket("format:genbank-spelled-out")
 	}
 	args = append(args, "--no-cache")
 	src := "generated"
@@ -654,6 +685,27 @@ func (x *c15run) one(rec *c15rec, cmd string, flags []string, locstr string, r *
 			}
 			embed := len(flags) > 0
 			got := x.featuresByLabel(out0)
+			if guestFeat {
+				// one copy of the guest's feature per inserted copy, each over
+				// the residues of its copy.
+				gfs := got["gf"]
+				if len(gfs) != len(idx) {
+					viol("guest-feature-count", fmt.Sprintf("%d (one per located site)", len(idx)), fmt.Sprint(len(gfs)))
+					return
+				}
+				for _, g := range gfs {
+					var den []byte
+					for _, a := range model.Bases(model.Atoms(model.Parts(g.Loc))) {
+						if a.Pos >= 0 && a.Pos < len(out0.Bytes()) {
+							den = append(den, out0.Bytes()[a.Pos])
+						}
+					}
+					if !bytes.Equal(den, guestB) {
+						viol("guest-feature-residues", fmt.Sprintf("every copy of the guest's feature denotes %q", guestB), fmt.Sprintf("%s denotes %q", model.SafeString(g.Loc), den))
+						return
+					}
+				}
+			}
 			for _, f := range rec.tab {
 				exp := model.ImageIdentity(model.Parts(f.Loc))
 				for _, i := range idx {
